@@ -364,16 +364,16 @@ func (r *Repository) ReconcileLocalRSLWithRemote(ctx context.Context, remoteName
 	localUpdatedRefs := set.NewSet[string]()
 	for _, entry := range localOnlyEntries {
 		slog.Debug(fmt.Sprintf("Identified local only entry that must be reapplied '%s'", entry.GetID().String()))
-		if entry, isRefEntry := entry.(*rsl.ReferenceEntry); isRefEntry {
-			localUpdatedRefs.Add(entry.RefName)
+		if entry, isRefEntry := entry.(rsl.ReferenceUpdaterEntry); isRefEntry {
+			localUpdatedRefs.Add(entry.GetRefName())
 		}
 	}
 
 	remoteUpdatedRefs := set.NewSet[string]()
 	for _, entry := range remoteOnlyEntries {
 		slog.Debug(fmt.Sprintf("Identified remote only entry '%s'", entry.GetID().String()))
-		if entry, isRefEntry := entry.(*rsl.ReferenceEntry); isRefEntry {
-			remoteUpdatedRefs.Add(entry.RefName)
+		if entry, isRefEntry := entry.(rsl.ReferenceUpdaterEntry); isRefEntry {
+			remoteUpdatedRefs.Add(entry.GetRefName())
 		}
 	}
 
@@ -405,6 +405,10 @@ func (r *Repository) ReconcileLocalRSLWithRemote(ctx context.Context, remoteName
 		case *rsl.ReferenceEntry:
 			if err := rsl.NewReferenceEntry(entry.RefName, entry.TargetID).Commit(r.r, sign); err != nil {
 				return fmt.Errorf("unable to reapply reference entry '%s': %w", entry.ID.String(), err)
+			}
+		case *rsl.PropagationEntry:
+			if err := rsl.NewPropagationEntry(entry.RefName, entry.TargetID, entry.UpstreamRepository, entry.UpstreamEntryID).Commit(r.r, sign); err != nil {
+				return fmt.Errorf("unable to reapply propagation entry '%s': %w", entry.ID.String(), err)
 			}
 		case *rsl.AnnotationEntry:
 			entryIDs := make([]githash.Hash, 0, len(entry.RSLEntryIDs))
